@@ -72,8 +72,28 @@ Proof.
   rewrite H1. destruct (is_v4 a); reflexivity.
 Qed.
 
+Lemma eqb_sym_bool a b : Bool.eqb a b = Bool.eqb b a.
+Proof. destruct a, b; reflexivity. Qed.
+
+Lemma same_record_matches mine other :
+  (if Bool.eqb (r_flush other) (r_flush mine) then rr_matches mine other
+   else rr_matches mine (with_flush other (r_flush mine))) = same_record mine other.
+Proof.
+  unfold rr_matches, same_record, with_flush. simpl.
+  destruct (Bool.eqb (r_flush other) (r_flush mine)) eqn:E.
+  - rewrite eqb_sym_bool, E.
+    destruct (beq (r_name mine) (r_name other) && (r_type mine =? r_type other) && (r_class mine =? r_class other));
+      simpl; reflexivity.
+  - rewrite eqb_reflx.
+    destruct (beq (r_name mine) (r_name other) && (r_type mine =? r_type other) && (r_class mine =? r_class other));
+      simpl; reflexivity.
+Qed.
+
 Lemma suppressed_known r m : suppressed_by r m = known m r.
-Proof. reflexivity. Qed.
+Proof.
+  unfold suppressed_by, known. induction (m_answers m) as [|t l IH]; simpl; [reflexivity|].
+  rewrite IH. unfold suppressed_by_answer. rewrite same_record_matches, suppress_ttl_test_pinned. reflexivity.
+Qed.
 
 (* ---- what a step appends to the outgoing message ------------------------------------------- *)
 
@@ -187,31 +207,34 @@ Qed.
 
 (* ---- the PTR arm ---------------------------------------------------------------------------- *)
 
-(* the meta-query PTR a single entry contributes in the code *)
-Definition meta_part (m : msg) (q : question) (e : entry) : list rr :=
-  if meta_entry e && beq (q_name q) META_QUERY
-  then unknown m [sp_ptr (q_name q) (s_ty (e_svc e))] else [].
+(* the meta-query PTR a single entry contributes in the code, given the set of types already
+   listed for this question *)
+Definition meta_new (q : question) (seen : list bytes) (e : entry) : bool :=
+  meta_entry e && beq (q_name q) META_QUERY && negb (mem (s_ty (e_svc e)) seen).
+Definition seen_after (q : question) (seen : list bytes) (e : entry) : list bytes :=
+  if meta_new q seen e then s_ty (e_svc e) :: seen else seen.
+Definition meta_part (m : msg) (q : question) (seen : list bytes) (e : entry) : list rr :=
+  if meta_new q seen e then unknown m [sp_ptr (q_name q) (s_ty (e_svc e))] else [].
 
 Lemma answerable_code intf v4 e :
   answerable code_quirks intf v4 e
   = is_announced (e_status e) && negb (is_nil (intf_addrs_of v4 (e_svc e) intf)).
 Proof. unfold answerable. rewrite link_addrs_code. reflexivity. Qed.
 
-Lemma meta_part_matching m q e :
-  matches_type_or_subtype (e_svc e) (q_name q) = true -> meta_part m q e = [].
+Lemma meta_new_matching q seen e :
+  matches_type_or_subtype (e_svc e) (q_name q) = true -> meta_new q seen e = false.
 Proof.
-  intros H. unfold meta_part, meta_entry.
+  intros H. unfold meta_new, meta_entry.
   destruct (beq (q_name q) META_QUERY) eqn:Eq; [|rewrite andb_false_r; reflexivity].
   apply beq_eq in Eq. rewrite <- Eq, H. rewrite andb_false_r. reflexivity.
 Qed.
 
-Lemma meta_part_nonmatching m q e :
+Lemma meta_new_nonmatching q seen e :
   is_announced (e_status e) = true -> matches_type_or_subtype (e_svc e) (q_name q) = false ->
-  meta_part m q e = if beq (q_name q) META_QUERY
-                    then unknown m [sp_ptr (q_name q) (s_ty (e_svc e))] else [].
+  meta_new q seen e = beq (q_name q) META_QUERY && negb (mem (s_ty (e_svc e)) seen).
 Proof.
-  intros Ha H. unfold meta_part, meta_entry. rewrite Ha.
-  destruct (beq (q_name q) META_QUERY) eqn:Eq; [|rewrite andb_false_r; reflexivity].
+  intros Ha H. unfold meta_new, meta_entry. rewrite Ha.
+  destruct (beq (q_name q) META_QUERY) eqn:Eq; [|cbn [andb]; rewrite andb_false_r; reflexivity].
   apply beq_eq in Eq. rewrite <- Eq, H. reflexivity.
 Qed.
 
@@ -232,20 +255,123 @@ Proof.
     destruct (s_sub (e_svc e)); [|reflexivity]. destruct (beq b (q_name q)); reflexivity.
 Qed.
 
-Lemma ptr_step_ext inp q v4 og e : wf_service (e_svc e) = true ->
+Lemma ptr_step_ext inp q v4 og seen e : wf_service (e_svc e) = true ->
   let c := spec_ptr_entry code_quirks (h_name_changes inp) (h_intf inp) (h_msg inp) v4 q e in
-  ext og (fst c ++ meta_part (h_msg inp) q e) (snd c) (ptr_step inp q v4 og e).
+  ext og (fst c ++ meta_part (h_msg inp) q seen e) (snd c) (fst (ptr_step inp q v4 (og, seen) e)) /\
+  snd (ptr_step inp q v4 (og, seen) e) = seen_after q seen e.
 Proof.
-  intros Hwf c. subst c. unfold ptr_step. rewrite spec_ptr_entry_code.
+  intros Hwf c. subst c. unfold ptr_step, meta_part, seen_after. rewrite spec_ptr_entry_code.
   destruct (is_announced (e_status e)) eqn:Ea; cbn [negb andb].
-  2:{ unfold meta_part, meta_entry. rewrite Ea. apply ext_refl. }
+  2:{ unfold meta_new, meta_entry. rewrite Ea. cbn [andb fst snd app]. split; [apply ext_refl|reflexivity]. }
   destruct (matches_type_or_subtype (e_svc e) (q_name q)) eqn:Em.
-  - rewrite (meta_part_matching _ _ _ Em), app_nil_r.
-    pose proof (awa_ext og (h_msg inp) (e_svc e) (h_intf inp) (h_name_changes inp) v4 Hwf) as Hawa.
-    exact Hawa.
-  - rewrite (meta_part_nonmatching _ _ _ Ea Em). cbn [fst snd app].
-    destruct (beq (q_name q) META_QUERY); [|apply ext_refl].
-    rewrite (ptr_record_sp _ _ _ Hwf). apply ext_add_answer.
+  - rewrite (meta_new_matching _ seen _ Em), app_nil_r. cbn [fst snd]. split; [|reflexivity].
+    exact (awa_ext og (h_msg inp) (e_svc e) (h_intf inp) (h_name_changes inp) v4 Hwf).
+  - rewrite (meta_new_nonmatching _ seen _ Ea Em). cbn [fst snd app].
+    destruct (beq (q_name q) META_QUERY); cbn [andb]; [|split; [apply ext_refl|reflexivity]].
+    destruct (mem (s_ty (e_svc e)) seen); cbn [negb fst snd]; [split; [apply ext_refl|reflexivity]|].
+    split; [|reflexivity]. rewrite (ptr_record_sp _ _ _ Hwf). apply ext_add_answer.
+Qed.
+
+(* the answers of a PTR question in the order the code appends them *)
+Fixpoint code_ptr_answers (inp : hq_input) (v4 : bool) (q : question) (seen : list bytes) (l : list entry) : list rr :=
+  match l with
+  | [] => []
+  | e :: t =>
+    (fst (spec_ptr_entry code_quirks (h_name_changes inp) (h_intf inp) (h_msg inp) v4 q e)
+     ++ meta_part (h_msg inp) q seen e)
+    ++ code_ptr_answers inp v4 q (seen_after q seen e) t
+  end.
+
+Lemma ptr_fold_ext inp q v4 l : (forall e, In e l -> wf_service (e_svc e) = true) ->
+  forall og seen,
+  ext og (code_ptr_answers inp v4 q seen l)
+      (flat_map (fun e => snd (spec_ptr_entry code_quirks (h_name_changes inp) (h_intf inp) (h_msg inp) v4 q e)) l)
+      (fst (fold_left (ptr_step inp q v4) l (og, seen))).
+Proof.
+  induction l as [|e l IH]; intros Hwf og seen; [apply ext_refl|].
+  cbn [fold_left code_ptr_answers flat_map].
+  destruct (ptr_step_ext inp q v4 og seen e (Hwf e (or_introl eq_refl))) as [H1 H2].
+  destruct (ptr_step inp q v4 (og, seen) e) as [og' seen'] eqn:Es. cbn [fst snd] in H1, H2. subst seen'.
+  eapply ext_trans; [exact H1|]. apply IH. intros e' He'. apply Hwf. right. exact He'.
+Qed.
+
+(* types listed by the code: first occurrences, not yet seen *)
+Fixpoint metas (q : question) (seen : list bytes) (l : list entry) : list bytes :=
+  match l with
+  | [] => []
+  | e :: t => if meta_new q seen e then s_ty (e_svc e) :: metas q (s_ty (e_svc e) :: seen) t else metas q seen t
+  end.
+
+Lemma Permutation_filter {A} (f : A -> bool) l l' : Permutation l l' -> Permutation (filter f l) (filter f l').
+Proof.
+  induction 1; simpl.
+  - constructor.
+  - destruct (f x); [constructor|]; assumption.
+  - destruct (f x), (f y); try apply perm_swap; try apply Permutation_refl.
+  - eapply Permutation_trans; eassumption.
+Qed.
+
+Lemma code_ptr_answers_metas inp v4 q l : forall seen,
+  Permutation (code_ptr_answers inp v4 q seen l)
+    (flat_map (fun e => fst (spec_ptr_entry code_quirks (h_name_changes inp) (h_intf inp) (h_msg inp) v4 q e)) l
+     ++ unknown (h_msg inp) (map (sp_ptr (q_name q)) (metas q seen l))).
+Proof.
+  induction l as [|e l IH]; intros seen; cbn [code_ptr_answers flat_map metas]; [constructor|].
+  unfold meta_part, seen_after. destruct (meta_new q seen e) eqn:En.
+  - cbn [map]. change (sp_ptr (q_name q) (s_ty (e_svc e)) :: ?x) with ([sp_ptr (q_name q) (s_ty (e_svc e))] ++ x).
+    rewrite (unknown_app (h_msg inp) [sp_ptr (q_name q) (s_ty (e_svc e))]).
+    rewrite <- !app_assoc. apply Permutation_app_head.
+    eapply Permutation_trans; [apply Permutation_app_head; apply IH|].
+    rewrite unknown_app. apply Permutation_app_swap_app.
+  - rewrite app_nil_r, <- app_assoc. apply Permutation_app_head. apply IH.
+Qed.
+
+Lemma in_metas q l : forall seen x,
+  In x (metas q seen l) <->
+  beq (q_name q) META_QUERY = true /\ ~ In x seen /\ In x (map (fun e => s_ty (e_svc e)) (filter meta_entry l)).
+Proof.
+  induction l as [|e l IH]; intros seen x; cbn [metas filter map].
+  - simpl. tauto.
+  - unfold meta_new. destruct (meta_entry e) eqn:Eme; cbn [andb map].
+    + destruct (beq (q_name q) META_QUERY) eqn:Eq; cbn [andb].
+      * destruct (mem (s_ty (e_svc e)) seen) eqn:Es; cbn [negb].
+        -- rewrite IH. apply mem_In in Es. simpl. split.
+           ++ intros (H1 & H2 & H3). auto.
+           ++ intros (H1 & H2 & [H3|H3]); [subst x; contradiction|auto].
+        -- simpl. rewrite IH. simpl. split.
+           ++ intros [H|(H1 & H2 & H3)].
+              ** subst x. repeat split; auto. intros Hin. apply mem_In in Hin. congruence.
+              ** repeat split; auto.
+           ++ intros (H1 & H2 & [H3|H3]); [left; exact H3|].
+              destruct (list_eq_dec N.eq_dec (s_ty (e_svc e)) x) as [E|E]; [left; exact E|].
+              right. repeat split; auto. intros [H|H]; [contradiction|contradiction].
+      * rewrite IH. split; intros (H1 & _); discriminate.
+    + rewrite IH. reflexivity.
+Qed.
+
+Lemma NoDup_metas q l : forall seen, NoDup (metas q seen l).
+Proof.
+  induction l as [|e l IH]; intros seen; cbn [metas]; [constructor|].
+  destruct (meta_new q seen e); [|apply IH]. constructor; [|apply IH].
+  intros H. apply in_metas in H as (_ & H & _). apply H. left. reflexivity.
+Qed.
+
+Lemma code_ptr_answers_perm inp v4 q :
+  Permutation (code_ptr_answers inp v4 q [] (h_services inp))
+    (flat_map (fun e => fst (spec_ptr_entry code_quirks (h_name_changes inp) (h_intf inp) (h_msg inp) v4 q e)) (h_services inp)
+     ++ spec_meta (h_msg inp) (h_services inp) q).
+Proof.
+  eapply Permutation_trans; [apply code_ptr_answers_metas|]. apply Permutation_app_head.
+  unfold spec_meta. destruct (beq (q_name q) META_QUERY) eqn:Eq.
+  - apply Permutation_filter, Permutation_map. apply NoDup_Permutation.
+    + apply NoDup_metas.
+    + apply NoDup_nodup.
+    + intros x. rewrite in_metas, nodup_In. unfold meta_types. rewrite Eq. simpl. tauto.
+  - assert (E : metas q [] (h_services inp) = []).
+    { destruct (metas q [] (h_services inp)) as [|x t] eqn:E; [reflexivity|].
+      assert (H : In x (metas q [] (h_services inp))) by (rewrite E; left; reflexivity).
+      apply in_metas in H as (H & _). congruence. }
+    rewrite E. constructor.
 Qed.
 
 (* ---- the A / AAAA / ANY arm ----------------------------------------------------------------- *)
@@ -264,29 +390,33 @@ Qed.
 
 (* ---- add_answer_of_service and the lookup of the instance ----------------------------------- *)
 
-Lemma aaos_ext og m name s qtype ia : wf_service s = true ->
+Lemma aaos_ext og m name s host qtype ia : wf_service s = true ->
   ext og
-    (unknown m ((if (qtype =? 33) || (qtype =? 255) then [sp_srv name (s_port s) (s_host s)] else [])
+    (unknown m ((if (qtype =? 33) || (qtype =? 255) then [sp_srv name (s_port s) host] else [])
                 ++ (if (qtype =? 16) || (qtype =? 255) then [sp_txt name (s_txt s)] else [])))
-    (if qtype =? 33 then map (sp_addr (s_host s)) ia else [])
-    (add_answer_of_service og m name s qtype ia).
+    (if (qtype =? 33) && negb (known m (sp_srv name (s_port s) host)) then map (sp_addr host) ia else [])
+    (add_answer_of_service_as og m name s host qtype ia).
 Proof.
-  intros Hwf. unfold add_answer_of_service.
+  intros Hwf. unfold add_answer_of_service_as.
   change TY_SRV with 33. change TY_ANY with 255. change TY_TXT with 16.
-  rewrite unknown_app.
-  set (og1 := if (qtype =? 33) || (qtype =? 255) then _ else og).
+  rewrite unknown_app. rewrite (srv_record_sp _ _ _ Hwf), (txt_record_sp _ _ Hwf).
+  pose proof (ext_add_answer og m (sp_srv name (s_port s) host)) as [Hs1 Hs2].
+  destruct (add_answer og m (sp_srv name (s_port s) host)) as [ogs added] eqn:Eadd.
+  cbn [fst snd] in Hs1, Hs2.
+  set (pr := if (qtype =? 33) || (qtype =? 255) then (ogs, added) else (og, false)).
   assert (H1 : ext og (unknown m (if (qtype =? 33) || (qtype =? 255)
-                                  then [sp_srv name (s_port s) (s_host s)] else [])) [] og1).
-  { subst og1. destruct ((qtype =? 33) || (qtype =? 255)).
-    - rewrite (srv_record_sp _ _ _ Hwf). apply ext_add_answer.
-    - apply ext_refl. }
+                                  then [sp_srv name (s_port s) host] else [])) [] (fst pr)
+               /\ ((qtype =? 33) && snd pr = (qtype =? 33) && negb (known m (sp_srv name (s_port s) host)))).
+  { subst pr. destruct (qtype =? 33) eqn:E33; cbn [orb andb fst snd].
+    - split; [exact Hs1|exact Hs2].
+    - split; [|reflexivity]. destruct (qtype =? 255); [exact Hs1|apply ext_refl]. }
+  destruct pr as [og1 srv_added]. cbn [fst snd] in H1. destruct H1 as [H1 Hadd].
   set (og2 := if (qtype =? 16) || (qtype =? 255) then _ else og1).
   assert (H2 : ext og1 (unknown m (if (qtype =? 16) || (qtype =? 255)
                                    then [sp_txt name (s_txt s)] else [])) [] og2).
-  { subst og2. destruct ((qtype =? 16) || (qtype =? 255)).
-    - rewrite (txt_record_sp _ _ Hwf). apply ext_add_answer.
-    - apply ext_refl. }
-  destruct (qtype =? 33).
+  { subst og2. destruct ((qtype =? 16) || (qtype =? 255)); [apply ext_add_answer|apply ext_refl]. }
+  rewrite Hadd.
+  destruct ((qtype =? 33) && negb (known m (sp_srv name (s_port s) host))).
   - eapply ext_eq; [eapply ext_trans; [exact H1|eapply ext_trans; [exact H2|apply ext_fold_additional]]| |].
     + rewrite app_nil_r. reflexivity.
     + cbn [app]. apply map_ext. intros a. apply addr_record_sp. exact Hwf.
@@ -295,21 +425,22 @@ Qed.
 
 Lemma spec_inst_entry_code nc intf m v4 q e :
   spec_inst_entry code_quirks nc intf m v4 q e
-  = if beq (resolve_name nc (e_key e)) (lower (q_name q))
+  = if beq (lower (resolve_name nc (s_fullname (e_svc e)))) (lower (q_name q))
     then if is_announced (e_status e)
          then if is_nil (intf_addrs_of v4 (e_svc e) intf) then ([], [])
               else (unknown m ((if (q_type q =? 33) || (q_type q =? 255)
-                                then [sp_srv (q_name q) (s_port (e_svc e)) (s_host (e_svc e))] else [])
+                                then [sp_srv (q_name q) (s_port (e_svc e)) (resolve_name nc (s_host (e_svc e)))] else [])
                                ++ (if (q_type q =? 16) || (q_type q =? 255)
                                    then [sp_txt (q_name q) (s_txt (e_svc e))] else [])),
-                    if q_type q =? 33
-                    then map (sp_addr (s_host (e_svc e))) (intf_addrs_of v4 (e_svc e) intf) else [])
+                    if (q_type q =? 33)
+                       && negb (known m (sp_srv (q_name q) (s_port (e_svc e)) (resolve_name nc (s_host (e_svc e)))))
+                    then map (sp_addr (resolve_name nc (s_host (e_svc e)))) (intf_addrs_of v4 (e_svc e) intf) else [])
          else ([], [])
     else ([], []).
 Proof.
-  unfold spec_inst_entry, inst_match. rewrite answerable_code, link_addrs_code.
-  cbn [k_lookup_lower k_srv_old_host code_quirks].
-  destruct (beq (resolve_name nc (e_key e)) (lower (q_name q))); cbn [andb]; [|reflexivity].
+  unfold spec_inst_entry, inst_match, ci_eq, cur_inst, cur_host. rewrite answerable_code, link_addrs_code.
+  rewrite (beq_sym (lower (q_name q))).
+  destruct (beq (lower (resolve_name nc (s_fullname (e_svc e)))) (lower (q_name q))); cbn [andb]; [|reflexivity].
   destruct (is_announced (e_status e)); cbn [andb]; [|reflexivity].
   destruct (is_nil (intf_addrs_of v4 (e_svc e) intf)); reflexivity.
 Qed.
@@ -333,24 +464,26 @@ Qed.
 
 Lemma inst_ext inp q v4 og :
   (forall e, In e (h_services inp) -> wf_service (e_svc e) = true) ->
-  nodup_b (map (fun e => resolve_name (h_name_changes inp) (e_key e)) (h_services inp)) = true ->
+  nodup_b (map (fun e => lower (resolve_name (h_name_changes inp) (s_fullname (e_svc e)))) (h_services inp)) = true ->
   ext og
     (flat_map (fun e => fst (spec_inst_entry code_quirks (h_name_changes inp) (h_intf inp) (h_msg inp) v4 q e))
               (h_services inp))
     (flat_map (fun e => snd (spec_inst_entry code_quirks (h_name_changes inp) (h_intf inp) (h_msg inp) v4 q e))
               (h_services inp))
-    (match find (fun e => beq (resolve_name (h_name_changes inp) (e_key e)) (lower (q_name q))) (h_services inp) with
+    (match find (fun e => beq (lower (resolve_name (h_name_changes inp) (s_fullname (e_svc e)))) (lower (q_name q)))
+                (h_services inp) with
      | None => og
      | Some e =>
        if negb (is_announced (e_status e)) then og
        else
          let intf_addrs := intf_addrs_of v4 (e_svc e) (h_intf inp) in
          if is_nil intf_addrs then og
-         else add_answer_of_service og (h_msg inp) (q_name q) (e_svc e) (q_type q) intf_addrs
+         else add_answer_of_service_as og (h_msg inp) (q_name q) (e_svc e)
+                (resolve_name (h_name_changes inp) (s_host (e_svc e))) (q_type q) intf_addrs
      end).
 Proof.
   intros Hwf Hnd.
-  pose (g := fun e => resolve_name (h_name_changes inp) (e_key e)).
+  pose (g := fun e => lower (resolve_name (h_name_changes inp) (s_fullname (e_svc e)))).
   pose (c := fun e => spec_inst_entry code_quirks (h_name_changes inp) (h_intf inp) (h_msg inp) v4 q e).
   assert (Ha : flat_map (fun e => fst (c e)) (h_services inp)
                = match find (fun e => beq (g e) (lower (q_name q))) (h_services inp) with
@@ -365,8 +498,8 @@ Proof.
     apply flat_map_ext_in. intros e _. subst c g. cbv beta. rewrite spec_inst_entry_code.
     destruct (beq _ _); reflexivity. }
   subst c g. cbv beta in Ha, Hd. rewrite Ha, Hd. clear Ha Hd.
-  destruct (find (fun e => beq (resolve_name (h_name_changes inp) (e_key e)) (lower (q_name q))) (h_services inp))
-    as [e|] eqn:Ef; [|apply ext_refl].
+  destruct (find (fun e => beq (lower (resolve_name (h_name_changes inp) (s_fullname (e_svc e)))) (lower (q_name q)))
+                 (h_services inp)) as [e|] eqn:Ef; [|apply ext_refl].
   apply find_some in Ef as [Hin Hk]. rewrite spec_inst_entry_code, Hk.
   destruct (is_announced (e_status e)); cbn [negb]; [|apply ext_refl].
   cbv zeta. destruct (is_nil (intf_addrs_of v4 (e_svc e) (h_intf inp))); [apply ext_refl|].
@@ -378,18 +511,17 @@ Qed.
 (* the answers in the order the code appends them *)
 Definition code_question_answers (inp : hq_input) (v4 : bool) (q : question) : list rr :=
   if q_type q =? 12 then
-    flat_map (fun e => fst (spec_ptr_entry code_quirks (h_name_changes inp) (h_intf inp) (h_msg inp) v4 q e)
-                       ++ meta_part (h_msg inp) q e) (h_services inp)
+    code_ptr_answers inp v4 q [] (h_services inp)
   else fst (spec_question code_quirks (h_name_changes inp) (h_intf inp) (h_msg inp) v4 (h_services inp) q).
 
 Definition wf_entries (inp : hq_input) : Prop :=
   (forall e, In e (h_services inp) -> wf_service (e_svc e) = true) /\
-  nodup_b (map (fun e => resolve_name (h_name_changes inp) (e_key e)) (h_services inp)) = true.
+  nodup_b (map (fun e => lower (resolve_name (h_name_changes inp) (s_fullname (e_svc e)))) (h_services inp)) = true.
 
 Lemma wf_input_entries inp : wf_input inp = true -> wf_entries inp.
 Proof.
   unfold wf_input, wf_entries. rewrite andb_true_iff. intros [H1 H2]. split; [|exact H2].
-  intros e He. rewrite forallb_forall in H1. apply H1 in He. apply andb_true_iff in He. tauto.
+  intros e He. rewrite forallb_forall in H1. apply H1 in He. exact He.
 Qed.
 
 Lemma question_step_ext inp v4 og q : wf_entries inp ->
@@ -400,12 +532,7 @@ Proof.
   intros [Hwf Hnd]. unfold question_step, code_question_answers, spec_question.
   change TY_PTR with 12. change TY_A with 1. change TY_AAAA with 28. change TY_ANY with 255.
   destruct (q_type q =? 12) eqn:Eptr.
-  - cbn [snd].
-    apply (ext_fold (ptr_step inp q v4)
-             (fun e => fst (spec_ptr_entry code_quirks (h_name_changes inp) (h_intf inp) (h_msg inp) v4 q e)
-                       ++ meta_part (h_msg inp) q e)
-             (fun e => snd (spec_ptr_entry code_quirks (h_name_changes inp) (h_intf inp) (h_msg inp) v4 q e))).
-    intros og' e He. apply ptr_step_ext. apply Hwf. exact He.
+  - cbn [snd]. apply ptr_fold_ext. exact Hwf.
   - cbn [fst snd].
     eapply ext_eq; [eapply ext_trans; [|apply inst_ext; assumption]| |].
     + instantiate (1 := []).
@@ -448,20 +575,6 @@ Proof.
   intros H. induction l as [|x l IH]; simpl; [constructor|]. apply Permutation_app; auto.
 Qed.
 
-Lemma meta_part_flat m entries q :
-  flat_map (meta_part m q) entries = spec_meta code_quirks m entries q.
-Proof.
-  unfold spec_meta, meta_types. cbn [k_meta_dup code_quirks].
-  destruct (beq (q_name q) META_QUERY) eqn:Eq.
-  - induction entries as [|e l IH]; [reflexivity|].
-    cbn [flat_map filter]. unfold meta_part at 1. rewrite Eq, andb_true_r.
-    destruct (meta_entry e); cbn [map].
-    + rewrite IH. symmetry.
-      apply (unknown_app m [sp_ptr (q_name q) (s_ty (e_svc e))]).
-    + rewrite IH. reflexivity.
-  - apply flat_map_nil. intros e _. unfold meta_part. rewrite Eq, andb_false_r. reflexivity.
-Qed.
-
 Lemma code_answers_perm inp v4 :
   Permutation (code_answers inp v4)
               (spec_answers code_quirks (h_name_changes inp) (h_intf inp) (h_msg inp) v4 (h_services inp)).
@@ -469,7 +582,7 @@ Proof.
   unfold code_answers, spec_answers. apply flat_map_perm. intros q.
   unfold code_question_answers, spec_question.
   destruct (q_type q =? 12); [|apply Permutation_refl].
-  cbn [fst]. rewrite <- meta_part_flat. apply flat_map_app2.
+  cbn [fst]. apply code_ptr_answers_perm.
 Qed.
 
 (* ---- sending --------------------------------------------------------------------------------- *)
@@ -537,7 +650,7 @@ Lemma handle_query_shape inp : wf_entries inp ->
     else if negb (family_enabled (h_intf inp) v4) then None
     else Some (mkPacket
                  (if legacy inp then DUnicast (h_src_ip inp) (h_src_port inp) else DMulticast v4)
-                 (mi_index (h_intf inp)) 0 33792
+                 (mi_index (h_intf inp)) (if legacy inp then m_id (h_msg inp) else 0) 33792
                  (if legacy inp then map (fun q => (q_name q, q_type q)) (m_questions (h_msg inp)) else [])
                  (if legacy inp then map clear_flush A else A)
                  (if legacy inp then map clear_flush D else D)).
@@ -558,11 +671,11 @@ Proof.
   - pose proof (fold_add_question (m_questions (h_msg inp)) (set_id out (m_id (h_msg inp)))) as Hfq.
     cbv zeta in Hfq. destruct Hfq as (K1 & K2 & K3 & K4 & K5 & K6).
     rewrite send_response_shape.
-    2:{ unfold clear_cache_flush_bits; simpl. rewrite K5. simpl. rewrite Ha. discriminate. }
+    2:{ unfold set_multicast, clear_cache_flush_bits; simpl. rewrite K5. simpl. rewrite Ha. discriminate. }
     fold v4. destruct (family_enabled (h_intf inp) v4); [|reflexivity]. cbn [negb].
-    unfold wire_id, clear_cache_flush_bits; simpl.
-    rewrite K1, K3, K4, K5, K6. simpl. rewrite Hf, Hm, Hq, Ha, Hd.
-    rewrite outgoing_multicast_default_pinned, wire_id_when_multicast_pinned. reflexivity.
+    unfold wire_id, set_multicast, clear_cache_flush_bits; simpl.
+    rewrite K1, K2, K4, K5, K6. simpl. rewrite Hf, Hq, Ha, Hd.
+    reflexivity.
   - rewrite send_response_shape.
     2:{ simpl. rewrite Ha. discriminate. }
     fold v4. destruct (family_enabled (h_intf inp) v4); [|reflexivity]. cbn [negb].
